@@ -47,6 +47,9 @@ type c09Params struct {
 func c09Run(p c09Params) func() {
 	return func() {
 		H, R, T := mc.Duration(p.H)*ms, mc.Duration(p.R)*ms, mc.Duration(p.T)*ms
+		if p.allStatus || p.connAllStatus || p.discAllStatus {
+			defer logChoice()()
+		}
 		network := "udp"
 		if p.tcp {
 			network = "tcp"
